@@ -169,7 +169,8 @@ def curve_self_intersections(c):
     non-adjacent pieces by box subdivision."""
     n = len(c.segs)
     if c.is_poly:
-        return [] if rg.polygon_is_simple(c.poly) else ["boundary polygon is not simple"]
+        msg = rg.polygon_self_crossing(c.poly)
+        return [] if msg is None else [msg]
     out = []
     for i in range(n):
         for j in range(i + 2, n):
@@ -239,19 +240,18 @@ def wellformed(R, size=None):
         areas = [c.area() for c in curves]
         if any(areas[i] < areas[i + 1] for i in range(len(areas) - 1)):
             fails.append("%s: subshapes not sorted by decreasing area" % where)
-        # every hole inside the outer boundary, holes pairwise outside each other
+        # every hole inside the (closed) outer region, holes pairwise outside each other's
+        # interior; isolated contact points are tolerated (A ^ B of crossing shapes
+        # cannot be represented without them), so segment mid-points are tested
         for i, h in enumerate(neg):
-            p = h.segs[0][0]
-            if pos:
-                w = pos[0].winding(p)
-                if w != 1:
-                    fails.append("%s: a hole boundary is not inside the outer boundary" % where)
+            mids = [rg.bez_eval(sg, F(1, 2)) for sg in h.segs]
+            if pos and any(pos[0].winding(m) == 0 for m in mids):
+                fails.append("%s: a hole boundary runs outside the outer boundary" % where)
             for j, g in enumerate(neg):
                 if i == j:
                     continue
-                w = g.winding(p)
-                if w not in (0,):
-                    fails.append("%s: hole %d is not outside hole %d" % (where, i, j))
+                if any(g.winding(m) == -1 for m in mids):
+                    fails.append("%s: hole %d runs inside hole %d" % (where, i, j))
         return curves
 
     if k == "SimpleShape":
